@@ -111,7 +111,10 @@ Call1(f, x) ==
   ELSE IF TextLike(x) THEN (IF f = "str" THEN S(x.v) ELSE x)
   ELSE CASE f = "lower" -> IF x.t = "str" THEN S(Lower(x.v)) ELSE x
          [] f = "upper" -> IF x.t = "str" THEN S(Upper(x.v)) ELSE x
-         [] f = "str"   -> IF x.t = "str" THEN x ELSE IF x.t = "int" THEN S(Digits(x.v)) ELSE Un
+         [] f = "str"   -> IF x.t = "str" THEN x ELSE IF x.t = "int" THEN S(Digits(x.v))
+                           ELSE IF x.t = "bool" THEN S(IF x.v THEN <<84, 114, 117, 101>> ELSE <<70, 97, 108, 115, 101>>)     \* "True" / "False": a boolean is not its number
+                           ELSE IF x.t = "none" THEN S(<<78, 111, 110, 101>>)
+                           ELSE Un
 Iter(x) == IF x.t \in {"list", "tuple"} THEN x.v
            ELSE IF x.t = "str" THEN [i \in DOMAIN x.v |-> S(<<x.v[i]>>)]
            ELSE <<>>
@@ -139,9 +142,15 @@ ScanTyped(op, vals, other, swap) ==
   ELSE LET v == Head(vals)
            r == IF swap THEN Cmp(op, other, v) ELSE Cmp(op, v, other)
        IN IF Bad(r) THEN r ELSE IF r.v THEN Bv(TRUE) ELSE ScanTyped(op, Tail(vals), other, swap)
+\* the values `Type.<ty>` ranges over: the record's own fields of that type in field order, then -- depth first -- those of
+\* the records it holds in `record` / `record[]` fields (env["$sub"]: their environments, in field and element order)
+RECURSIVE TypedVals(_, _), CatTyped(_, _)
+CatTyped(subs, ty) == IF subs = <<>> THEN <<>> ELSE TypedVals(Head(subs), ty) \o CatTyped(Tail(subs), ty)
+TypedVals(env, ty) ==
+  LET names == SelectSeq(env["$order"].v, LAMBDA f : env["$types"].v[f] = ty)
+  IN [i \in DOMAIN names |-> env[names[i]]] \o (IF "$sub" \in DOMAIN env THEN CatTyped(env["$sub"].v, ty) ELSE <<>>)
 TypedMatch(e, env) ==
-  LET names == SelectSeq(env["$order"].v, LAMBDA f : env["$types"].v[f] = e.ty)
-      vals == [i \in DOMAIN names |-> env[names[i]]]
+  LET vals == TypedVals(env, e.ty)
       other == e.b.v
   IN IF e.form = "cmp" THEN ScanTyped(e.op, vals, other, FALSE)        \* Type.t OP const
      ELSE ScanTyped("In", vals, other, TRUE)                           \* const in Type.t  : contains(value, const)
@@ -167,15 +176,14 @@ Ev(e, env) ==
               IN IF \E i \in DOMAIN xs : badI(i) THEN Un
                  ELSE IF e.q = "any" THEN Bv(\E i \in DOMAIN xs : cond(i).v /\ \E j \in DOMAIN ys(i) : elt(i, j).v)
                  ELSE Bv(\A i \in DOMAIN xs : cond(i).v => \A j \in DOMAIN ys(i) : elt(i, j).v)
-    [] e.k = "tref"  -> LET names == SelectSeq(env["$order"].v, LAMBDA f : env["$types"].v[f] = e.ty)
-                        IN [t |-> "tref", v |-> [i \in DOMAIN names |-> env[names[i]]]]
+    [] e.k = "tref"  -> [t |-> "tref", v |-> TypedVals(env, e.ty)]
     [] e.k = "ctor"  -> [t |-> "net", v |-> e.arg]        \* a field-type constructor call: net.ipv4.Subnet('10.0.0.0/8'), net.ipnetwork(...)
     [] e.k = "tuple" -> LET xs == [i \in DOMAIN e.es |-> Ev(e.es[i], env)] IN
                         IF \E i \in DOMAIN xs : xs[i].t = "err" THEN Err ELSE IF \E i \in DOMAIN xs : xs[i].t = "unspec" THEN Un ELSE Tu(xs)
     [] e.k = "neg"   -> LET x == Ev(e.a, env) IN IF Bad(x) THEN x ELSE IF x.t = "missing" THEN Un ELSE IF IsNum(x) THEN I(0 - Num(x)) ELSE Err
     [] e.k = "helper" -> Helper(e, env)
     [] e.k = "typed"  -> TypedMatch(e, env)
-    [] e.k = "hasfield" -> Bv(e.f \in DOMAIN env /\ e.f \notin {"$x", "$types", "$order"})
+    [] e.k = "hasfield" -> Bv(e.f \in DOMAIN env /\ e.f \notin {"$x", "$types", "$order", "$sub"})
     [] e.k = "list"  -> LET xs == [i \in DOMAIN e.es |-> Ev(e.es[i], env)] IN
                         IF \E i \in DOMAIN xs : xs[i].t = "err" THEN Err ELSE IF \E i \in DOMAIN xs : xs[i].t = "unspec" THEN Un ELSE Li(xs)
     [] e.k = "cmp"   -> Cmp(e.op, Ev(e.a, env), Ev(e.b, env))
